@@ -55,6 +55,7 @@ type c09KB struct {
 	Inc             []string
 	Types           []kemtypes.WatchEventType
 	V0Events        []string
+	MayFail         bool // the jq filter reads through a leaf value: it fails on some object states
 }
 
 type c09OtherB struct {
@@ -669,10 +670,125 @@ func (e *c09Env) run(idx []int) {
 	}
 }
 
-func c09Object(rng *Rng, ns, name string) map[string]any { return g4GenObject(rng, ns, name) }
+// ---- strings whose content is itself a JSON text (a jq result "3" must stay the string "3")
+var c09JSONLooking = []string{"3", "-2", "true", "false", "null", "{\"a\":1}", "[1]", "\"x\"", "0"}
+
+// the leaves of generated objects that are not metadata (values of any type)
+var c09ValueLeaves = [][]string{{"spec", "replicas"}, {"spec", "a"}, {"spec", "b", "c"}, {"status", "x"}, {"data", "k"}}
+
+// c09Spice: every third object gets one or two leaves holding a JSON-looking string.
+func c09Spice(rng *Rng, o map[string]any) map[string]any {
+	if !rng.Chance(35) {
+		return o
+	}
+	for n := rng.Range(1, 2); n > 0; n-- {
+		g4SetPath(o, PickOne(rng, c09ValueLeaves), PickOne(rng, c09JSONLooking))
+	}
+	if rng.Chance(25) {
+		g4SetPath(o, []string{"metadata", "labels", "l"}, PickOne(rng, []string{"true", "1", "null"}))
+	}
+	return o
+}
+
+func c09Object(rng *Rng, ns, name string) map[string]any {
+	return c09Spice(rng, g4GenObject(rng, ns, name))
+}
+
+// c09SpiceLits: string literals of a filter become JSON-looking strings (the filter `"3"` yields the string "3").
+func c09SpiceLits(rng *Rng, f *jqF) {
+	if f == nil {
+		return
+	}
+	if f.Kind == "lit" {
+		if _, isStr := f.Lit.(string); isStr && rng.Chance(60) {
+			f.Lit = PickOne(rng, c09JSONLooking)
+		}
+	}
+	for _, fl := range f.Fields {
+		c09SpiceLits(rng, fl.F)
+	}
+	for _, it := range f.Items {
+		c09SpiceLits(rng, it)
+	}
+	c09SpiceLits(rng, f.A)
+	c09SpiceLits(rng, f.B)
+}
+
+// ---- filters that can fail at run time: paths through the leaves spec.replicas / spec.a
+// (`.spec.replicas.x` is null for a missing / null / object leaf and a jq error for a number, string,
+// boolean or array). The snapshot model needs every cached object to be current and filterable at the
+// moment of a render, so a state some binding's filter fails on exists only between two changes:
+// it is followed at once — no render in between — by the delete of the object (the Deleted event is
+// fired all the same, with a bare result) or by an update to a state every filter accepts.
+var c09TrapPaths = [][]string{{"spec", "replicas", "x"}, {"spec", "a", "y"}}
+
+var c09FailingFilterPaths = append(append([][]string{}, g4SafeFilterPaths...), c09TrapPaths...)
+
+// c09Fails: does the jqFilter of some binding watching ns fail on obj (asked of the real applyFilter)?
+func c09Fails(spec *c09Spec, ns string, obj map[string]any) bool {
+	for _, b := range spec.KBs {
+		if b.NS != ns || b.F == nil || !b.MayFail {
+			continue
+		}
+		if _, err := kem.VerifApplyFilterC08(b.F.text(), &unstructured.Unstructured{Object: g4DeepCopyJSON(obj)}); err != nil {
+			return true
+		}
+	}
+	return false
+}
+
+func c09MayFailIn(spec *c09Spec, ns string) bool {
+	for _, b := range spec.KBs {
+		if b.NS == ns && b.F != nil && b.MayFail {
+			return true
+		}
+	}
+	return false
+}
+
+// c09Heal: the trap leaves become something a string key can index (absent / null / object).
+func c09Heal(rng *Rng, o map[string]any) map[string]any {
+	o = g4DeepCopyJSON(o)
+	for _, l := range [][]string{{"spec", "replicas"}, {"spec", "a"}} {
+		switch rng.Intn(3) {
+		case 0:
+			g4DelPath(o, l)
+		case 1:
+			g4SetPath(o, l, nil)
+		default:
+			g4SetPath(o, l, map[string]any{"x": int64(rng.Intn(3)), "y": PickOne(rng, []string{"p", "3"})})
+		}
+	}
+	return o
+}
+
+// c09Break: one trap leaf becomes a value a string key cannot index.
+func c09Break(rng *Rng, o map[string]any) map[string]any {
+	o = g4DeepCopyJSON(o)
+	var v any
+	switch rng.Intn(4) {
+	case 0:
+		v = int64(rng.Intn(9))
+	case 1:
+		v = PickOne(rng, []string{"not-a-number", "3", "x"})
+	case 2:
+		v = rng.Bool()
+	default:
+		v = []any{int64(1), "p"}
+	}
+	g4SetPath(o, PickOne(rng, [][]string{{"spec", "replicas"}, {"spec", "a"}}), v)
+	return o
+}
+
+func c09RawObj(ns, name string, replicas, a any) map[string]any {
+	return map[string]any{"apiVersion": "v1", "kind": "ConfigMap",
+		"metadata": map[string]any{"name": name, "namespace": ns},
+		"spec":     map[string]any{"replicas": replicas, "a": a},
+		"status":   map[string]any{"x": int64(0)}}
+}
 
 func runC09(r *Run) {
-	r.Rule = "per case: one hook configuration (configVersion v1 or v0) rendered as JSON and loaded by the real loader: 1-3 kubernetes bindings (jq filter from the non-failing fragment: object/array/scalar/null results, or none; keepFullObjectsInMemory on/off; group; includeSnapshotsFrom incl. self-include; executeHookOnEvent subset; one of two namespaces), optional onStartup, schedule, kubernetesValidating, kubernetesMutating, kubernetesCustomResourceConversion bindings with group / includeSnapshotsFrom; real monitors on kube-client/fake; 0-3 objects before Synchronization, then 2-7 creates/updates/deletes through the dynamic tracker; every Synchronization/Event context the controllers produce plus schedule/admission/conversion/onStartup contexts is rendered alone and in combined arrays (2-4 contexts) through the real Hook.Run (file read back from a real bash hook) or ConvertBindingContextList(...).Json(). A case is non-trivial when it renders >= 3 context lists and at least one Event and one snapshot-carrying context; distinct = distinct op-line sequences."
+	r.Rule = "per case: one hook configuration (configVersion v1 or v0) rendered as JSON and loaded by the real loader: 1-3 kubernetes bindings (jq filter of the fragment: object/array/scalar/string/null results, string literals and object leaves whose content is itself a JSON text (3, true, null, an object, a quoted string), or none; 30% of the filters read through a leaf value and fail on some object states - such a state never exists before Synchronization and is followed at once, without a render, by the delete of the object (whose Deleted item is rendered) or by an update every filter accepts; keepFullObjectsInMemory on/off; group; includeSnapshotsFrom incl. self-include; executeHookOnEvent subset; one of two namespaces), optional onStartup, schedule, kubernetesValidating, kubernetesMutating, kubernetesCustomResourceConversion bindings with group / includeSnapshotsFrom; real monitors on kube-client/fake; 0-3 objects before Synchronization, then 2-7 creates/updates/deletes through the dynamic tracker; every Synchronization/Event context the controllers produce plus schedule/admission/conversion/onStartup contexts is rendered alone and in combined arrays (2-4 contexts) through the real Hook.Run (file read back from a real bash hook) or ConvertBindingContextList(...).Json(). A case is non-trivial when it renders >= 3 context lists and at least one Event and one snapshot-carrying context; distinct = distinct op-line sequences."
 
 	// ---- corpus: the counterexamples of the repaired defects
 	corpus := []struct {
@@ -748,6 +864,129 @@ func runC09(r *Run) {
 		e.run([]int{0})
 		e.run([]int{1})
 	})
+
+	// ---- string-valued jq results whose content is itself a JSON text: "3" stays the string "3"
+	//      (in objects[i], in the Event item and in every snapshot element)
+	strCorpus := []struct {
+		desc string
+		f    *jqF
+		keep bool
+	}{
+		{"string-valued filter .spec.a over values whose content is a JSON text (3, true, an object, a quoted string, null)", g4Path("spec", "a"), false},
+		{"string literal alternative (.spec.a // \"null\") and a JSON-looking name in an object result",
+			g4ObjF(g4Fld("v", g4AltF(g4Path("spec", "a"), &jqF{Kind: "lit", Lit: "null"})), g4Fld("l", &jqF{Kind: "lit", Lit: "3"})), true},
+		{"string literal filter \"3\"", &jqF{Kind: "lit", Lit: "3"}, true},
+	}
+	for i, cc := range strCorpus {
+		cc := cc
+		r.One(7+i, func(c *Case, _ *Rng) {
+			c.Desc = "corpus: " + cc.desc
+			c.Nontrivial = true
+			ns := fmt.Sprintf("c09-%d-a", c.Idx)
+			spec := &c09Spec{Version: "v1", KBs: []c09KB{{Name: "k1", NS: ns, F: cc.f, Keep: cc.keep, Inc: []string{"k1"}}}}
+			e := c09Start(r, c, spec)
+			defer e.close()
+			if e == nil {
+				return
+			}
+			if !e.change("put", ns, "o1", c09RawObj(ns, "o1", int64(1), "3")) || !e.sync() {
+				return
+			}
+			e.run([]int{0})
+			ok := e.change("put", ns, "o1", c09RawObj(ns, "o1", int64(1), "true")) &&
+				e.change("put", ns, "o2", c09RawObj(ns, "o2", int64(2), "{\"a\":1}")) &&
+				e.change("put", ns, "o3", c09RawObj(ns, "o3", int64(3), "\"x\"")) &&
+				e.change("put", ns, "o2", c09RawObj(ns, "o2", int64(2), "null")) &&
+				e.change("put", ns, "o3", c09RawObj(ns, "o3", int64(3), nil))
+			if !ok {
+				return
+			}
+			for i := 1; i < len(e.ctxs); i++ {
+				e.run([]int{i})
+			}
+			if !e.change("del", ns, "o1", nil) {
+				return
+			}
+			all := []int{}
+			for i := range e.ctxs {
+				all = append(all, i)
+			}
+			e.run(all)
+			c.Note("corpus:json-looking-strings")
+		})
+	}
+
+	// ---- Deleted after a failing filter: the jqFilter fails on the last state of the object, the
+	//      Deleted event is fired all the same ("Delete is always fired") and its item follows the
+	//      contract like any other: `object` iff keepFullObjectsInMemory, filterResult null
+	failCorpus := []struct {
+		desc        string
+		v           string
+		keep        bool
+		types       []kemtypes.WatchEventType
+		neverCached bool // the object appears in a failing state (its Added is dropped, it is never cached)
+		second      bool // a second binding on the same namespace whose filter never fails
+	}{
+		{"Deleted after a failing Modified, keepFullObjectsInMemory=false", "v1", false, nil, false, false},
+		{"Deleted after a failing Modified, keepFullObjectsInMemory=true", "v1", true, nil, false, false},
+		{"Deleted of an object that was never cached (failing Added), executeHookOnEvent=[Deleted], keep=false, second binding", "v1", false,
+			[]kemtypes.WatchEventType{kemtypes.WatchEventDeleted}, true, true},
+		{"v0 hook: Deleted after a failing Modified", "v0", true, nil, false, false},
+	}
+	for i, cc := range failCorpus {
+		cc := cc
+		r.One(10+i, func(c *Case, _ *Rng) {
+			c.Desc = "corpus: " + cc.desc
+			c.Nontrivial = true
+			ns := fmt.Sprintf("c09-%d-a", c.Idx)
+			k1 := c09KB{Name: "k1", NS: ns, F: g4Path("spec", "replicas", "x"), Keep: cc.keep, Inc: []string{"k1"}, Types: cc.types,
+				V0Events: []string{"add", "update", "delete"}, MayFail: true}
+			spec := &c09Spec{Version: cc.v, KBs: []c09KB{k1}}
+			if cc.v == "v0" {
+				spec.KBs[0].Inc = nil
+			}
+			if cc.second {
+				spec.KBs = append(spec.KBs, c09KB{Name: "k2", NS: ns, F: g4Path("spec", "a"), Keep: true, Inc: []string{"k1", "k2"}})
+			}
+			e := c09Start(r, c, spec)
+			defer e.close()
+			if e == nil {
+				return
+			}
+			good := func(name string, x int64) map[string]any {
+				return c09RawObj(ns, name, map[string]any{"x": x}, "p")
+			}
+			if !e.change("put", ns, "o1", good("o1", 1)) || !e.sync() {
+				return
+			}
+			first := 0
+			if cc.v == "v0" {
+				first = len(e.ctxs) // the Synchronization context is never executed for v0 hooks
+			} else {
+				e.run([]int{0})
+			}
+			if !e.change("put", ns, "o2", good("o2", 2)) {
+				return
+			}
+			victim := "o1"
+			if cc.neverCached {
+				victim = "o3"
+			}
+			// the failing state and the delete follow each other without a render in between
+			if !e.change("put", ns, victim, c09RawObj(ns, victim, int64(5), "not-an-object")) || !e.change("del", ns, victim, nil) {
+				return
+			}
+			c.Note("failing-filter:deleted")
+			all := []int{}
+			for i := first; i < len(e.ctxs); i++ {
+				if i > 0 || cc.v == "v0" {
+					e.run([]int{i})
+				}
+				all = append(all, i)
+			}
+			e.run(all)
+		})
+	}
 
 	// ---- systematic sweep: every combination of the options the contract mentions
 	//   version v1: filter result kind (none/object/scalar/array/null/string) x keepFullObjectsInMemory x group x
@@ -879,7 +1118,12 @@ func c09Random(r *Run, c *Case, rng *Rng) {
 			b.NS = nsB
 		}
 		if rng.Chance(75) {
-			b.F = g4GenProg(rng, 2, g4SafeFilterPaths)
+			if rng.Chance(30) {
+				b.F, b.MayFail = g4GenProg(rng, 2, c09FailingFilterPaths), true
+			} else {
+				b.F = g4GenProg(rng, 2, g4SafeFilterPaths)
+			}
+			c09SpiceLits(rng, b.F)
 		}
 		if v0 {
 			b.Keep = true // v0 has no keepFullObjectsInMemory option: the documented default applies
@@ -932,6 +1176,12 @@ func c09Random(r *Run, c *Case, rng *Rng) {
 			continue
 		}
 		o := c09Object(rng, ns, nm)
+		if c09Fails(spec, ns, o) {
+			o = c09Heal(rng, o) // loadExistedObjects gives up on an object its filter fails on
+			if c09Fails(spec, ns, o) {
+				continue
+			}
+		}
 		state[key(ns, nm)] = o
 		if !e.change("put", ns, nm, o) {
 			return
@@ -965,23 +1215,49 @@ func c09Random(r *Run, c *Case, rng *Rng) {
 		case k < 60:
 			ns, nm := PickOne(rng, []string{nsA, nsA, nsB}), PickOne(rng, objNames)
 			cur := state[key(ns, nm)]
+			var o map[string]any
 			switch {
 			case cur == nil:
-				o := c09Object(rng, ns, nm)
-				state[key(ns, nm)] = o
-				if !e.change("put", ns, nm, o) {
-					return
-				}
+				o = c09Object(rng, ns, nm)
 			case rng.Chance(25):
 				delete(state, key(ns, nm))
 				if !e.change("del", ns, nm, nil) {
 					return
 				}
 			default:
-				o := c08Mutate(rng, cur, nil, "any")
-				state[key(ns, nm)] = o
-				if !e.change("put", ns, nm, o) {
-					return
+				o = c09Spice(rng, c08Mutate(rng, cur, nil, "any"))
+			}
+			if o == nil {
+				break
+			}
+			if c09MayFailIn(spec, ns) && rng.Chance(40) {
+				o = c09Break(rng, o)
+			}
+			if !e.change("put", ns, nm, o) {
+				return
+			}
+			state[key(ns, nm)] = o
+			if c09Fails(spec, ns, o) {
+				// some binding's filter fails on this state: Added/Modified are dropped by that binding (the
+				// object is missing from / stale in its snapshot). No render now; the object is deleted at
+				// once (Deleted is fired all the same) or updated to a state every filter accepts.
+				if rng.Chance(70) {
+					delete(state, key(ns, nm))
+					if !e.change("del", ns, nm, nil) {
+						return
+					}
+					c.Note("failing-filter:deleted")
+				} else {
+					h := c09Heal(rng, o)
+					if c09Fails(spec, ns, h) {
+						c.Inconcl = "no state every filter accepts"
+						return
+					}
+					state[key(ns, nm)] = h
+					if !e.change("put", ns, nm, h) {
+						return
+					}
+					c.Note("failing-filter:healed")
 				}
 			}
 		case k < 75:
